@@ -62,6 +62,33 @@ def later_stages(text, cfg_mode, big):
     return None
 
 
+def mode_order_oracle():
+    """What the checker says about a program in one mode does not depend on which programs were processed before, in
+    which modes, in the same process (seed C08f: decoded words were cached across modes, so a word that `assemble`
+    lets through — it accepts any 16-bit word — was afterwards taken for an instruction in run mode)."""
+    problems = []
+    for w in ("0x2400", "0x3d70", "0xffff", "0x2210", "0x23ff"):
+        text = "OPCODE(%s)\nHALT()\n" % w
+        verdicts = []
+        for mode in ("", "debug", "preprocess", "assemble", "", "debug", "preprocess"):
+            cfg = {"mode": mode, "allow_interrupts": mode in ("assemble", "preprocess"), "no_debug_ops": False, "data_start": 0xC001}
+            ops, pm = pc.real_parse(text, cfg)
+            if ops is None or pm.get("errors"):
+                verdicts.append((mode, "parse"))
+                continue
+            r = pc.real_check(ops, cfg)
+            verdicts.append((mode, "raise " + r["raise"] if "raise" in r else ("rejected" if r["errors"] else "accepted")))
+        first = {}
+        for mode, v in verdicts:
+            if mode in first and first[mode] != v:
+                problems.append("OPCODE(%s) in mode %r was %s, and after the same text had been assembled it is %s" % (w, mode, first[mode], v))
+                break
+            first.setdefault(mode, v)
+        if problems:
+            break
+    return problems
+
+
 def field_fit(prog_desc):
     """every real operation, assembled and disassembled, is itself (nothing truncated)"""
     import hera.op as op
@@ -199,6 +226,8 @@ def correspondence(ctx, model_available=True):
                 agree += 1
         res["model_vs_impl_agree"] = agree
         res["distribution"]["model_cases"] = len(mcases)
+    for b in mode_order_oracle():
+        res["spec_failures"].append({"what": b})
     res["spec_failures"] = res["spec_failures"][:5]
     res["nontrivial"] = len(nontrivial)
     res["rule"] = ("generated programs (mostly valid; one in five with planted faults) in run / assemble / preprocess "
